@@ -457,19 +457,25 @@ func (x *Exec) evalQuant(kind string, e *ast.CallExpr, st *State, env *Env) Valu
 			objs = append(objs, o)
 		}
 	}
-	anchors := x.findAnchors(ret.Results[0], bound)
-	// an explicit trig(...) fixes the patterns: the bound variables stay bare (no re-indexing by a heap read)
+	// an explicit trig(...) fixes the patterns: only slice reads among its arguments re-index their
+	// bound variable (so that the read itself is the pattern); ghost-map arguments leave the variables bare
+	var trigArgs []ast.Expr
 	hasTrig := false
 	ast.Inspect(ret.Results[0], func(n ast.Node) bool {
 		if ce, ok := n.(*ast.CallExpr); ok {
 			if id, ok := ce.Fun.(*ast.Ident); ok && id.Name == "trig" {
 				hasTrig = true
+				trigArgs = append(trigArgs, ce.Args...)
+				return false
 			}
 		}
-		return !hasTrig
+		return true
 	})
+	var anchors map[types.Object]quantAnchor
 	if hasTrig {
-		anchors = map[types.Object]quantAnchor{}
+		anchors = x.findAnchors(ret.Results[0], bound, trigArgs)
+	} else {
+		anchors = x.findAnchors(ret.Results[0], bound, nil)
 	}
 	x.specDepth++
 	x.binders++
@@ -637,7 +643,8 @@ type quantAnchor struct {
 
 // findAnchors finds, for each bound variable, the first slice read S[x + e]
 // (S and e free of bound variables) in the quantifier body.
-func (x *Exec) findAnchors(body ast.Expr, bound map[types.Object]bool) map[types.Object]quantAnchor {
+// findAnchors looks for anchor reads in search (a list of sub-expressions of body; nil = body itself).
+func (x *Exec) findAnchors(body ast.Expr, bound map[types.Object]bool, search []ast.Expr) map[types.Object]quantAnchor {
 	out := map[types.Object]quantAnchor{}
 	mentions := func(n ast.Node) bool {
 		found := false
@@ -725,7 +732,13 @@ func (x *Exec) findAnchors(body ast.Expr, bound map[types.Object]bool) map[types
 			return true
 		})
 	}
-	scan(body, false)
+	if search == nil {
+		scan(body, false)
+	} else {
+		for _, e := range search {
+			scan(e, false)
+		}
+	}
 	// variables without an anchor outside old(): look for one inside old(...)
 	for _, oa := range append([]ast.Expr{}, oldArgs...) {
 		scan(oa, true)
